@@ -50,6 +50,14 @@ pub struct Case {
     /// between derived times (Imsaak = Fajr - interval, Fajr = Shurooq - interval, ...) must hold under any weather
     #[serde(default)]
     pub base_weather: Option<WeatherSpec>,
+    /// Imsaak interval already present in the base parameters (not under the Imsaak-interval perturbation, nor for the
+    /// angle kinds), so that offsets and the other intervals are also varied on top of an interval-defined Imsaak
+    #[serde(default)]
+    pub base_imsaak_interval: Option<F>,
+    /// minute offsets (each within +-30) already present on all seven keys of the base parameters; an offset
+    /// perturbation is added on top of them
+    #[serde(default)]
+    pub base_offsets: Option<[F; 7]>,
 }
 
 /// Policies under which "the Fajr angle moves only Fajr and Imsaak, the Isha angle only Isha" can be stated
@@ -114,8 +122,12 @@ impl Prop for C12 {
         ];
         let base_iv = || prop_oneof![6 => Just(None), 2 => (1.0..=120.0f64).prop_map(|x| Some(F(x))), 1 => prop_oneof![Just(Some(F(120.0))), Just(Some(F(1.0))), Just(Some(F(90.0)))]];
         let base_weather = prop_oneof![2 => Just(None), 1 => gen::weather_opt()];
-        let general = (gen::site(62.0, 2.0), 0u8..9, any::<bool>(), gen::date(), perturb, 0u8..8, base_iv(), base_iv(), base_weather)
-            .prop_map(|(site, method, default_policy, date, perturb, angle_policy, base_fajr_interval, base_isha_interval, base_weather)| Case {
+        let base_offsets = prop_oneof![
+            3 => Just(None),
+            1 => proptest::array::uniform7(prop_oneof![1 => Just(0.0), 2 => -30.0..=30.0f64, 1 => (-30..=30i32).prop_map(|x| x as f64)]).prop_map(|a| Some(a.map(F))),
+        ];
+        let general = (gen::site(62.0, 2.0), 0u8..9, any::<bool>(), gen::date(), perturb, 0u8..8, base_iv(), base_iv(), base_weather, base_iv(), base_offsets)
+            .prop_map(|(site, method, default_policy, date, perturb, angle_policy, base_fajr_interval, base_isha_interval, base_weather, base_imsaak_interval, base_offsets)| Case {
                 site,
                 method,
                 default_policy,
@@ -125,6 +137,8 @@ impl Prop for C12 {
                 base_fajr_interval,
                 base_isha_interval,
                 base_weather,
+                base_imsaak_interval,
+                base_offsets,
             })
             .boxed();
         // short nights: |lat| 59.5-62 within two weeks of the local summer solstice, with Fajr, Isha and Imsaak intervals
@@ -144,6 +158,8 @@ impl Prop for C12 {
                     base_fajr_interval: Some(F(fi)),
                     base_isha_interval: Some(F(ii)),
                     base_weather: None,
+                    base_imsaak_interval: None,
+                    base_offsets: None,
                 })
             })
             .boxed();
@@ -176,8 +192,20 @@ impl Prop for C12 {
                     }
                 }
             }
+            if !matches!(c.perturb, Perturb::ImsaakInterval(_)) {
+                if let Some(v) = c.base_imsaak_interval {
+                    spec.imsaak_interval = Some(v);
+                    st.class("base_with_imsaak_interval");
+                }
+            }
             if spec.fajr_interval.is_some() || spec.isha_interval.is_some() {
                 st.class("base_with_user_intervals");
+            }
+            // (not under the Fajr/Isha interval perturbations: their clause relates two reported times that would carry
+            // different offsets)
+            if let (Some(o), false) = (c.base_offsets, matches!(c.perturb, Perturb::FajrInterval(_) | Perturb::IshaInterval(_))) {
+                spec.minutes = Some(o);
+                st.class("base_with_minute_offsets");
             }
         }
         let bw: Option<WeatherSpec> = if matches!(c.perturb, Perturb::Weather(_) | Perturb::DefaultWeather) { None } else { c.base_weather };
@@ -221,12 +249,15 @@ impl Prop for C12 {
         match perturb {
             Perturb::MinuteOffset { key, minutes } => {
                 let mut s2 = spec.clone();
-                let mut m = [F(0.0); 7];
-                m[*key as usize] = *minutes;
+                // on top of the base offsets, unless the sum would leave the quantified [-90, 90]
+                let mut m = spec.minutes.unwrap_or([F(0.0); 7]);
+                let sum = m[*key as usize].0 + minutes.0;
+                m[*key as usize] = if sum.abs() <= 90.0 { F(sum) } else { *minutes };
+                let want_shift = m[*key as usize].0 - spec.minutes.map_or(0.0, |b| b[*key as usize].0);
                 s2.minutes = Some(m);
                 let o = compute(&c.site, &s2, c.date, bw);
                 let pr = PRAYERS[*key as usize];
-                let want = minutes.0 * 60.0;
+                let want = want_shift * 60.0;
                 let moved_ok = |p: Prayer| -> Result<bool, Failure> {
                     match (base[&p], o[&p]) {
                         (Ok(a), Ok(b)) => {
@@ -310,9 +341,16 @@ impl Prop for C12 {
                 }
                 if fajr {
                     // Imsaak = Fajr - 1.5 min when Fajr is interval-defined and no Imsaak interval (DEF_IMSAAK_ANGLE used as minutes)
+                    // (with an Imsaak interval in the base parameters: Imsaak = Fajr - that interval)
+                    let gap = s2.intervals().2;
+                    let gap_s = if gap != 0.0 { gap * 60.0 } else { 90.0 };
                     if let (Some(f), Some(im)) = (t(&o, Prayer::Fajr), t(&o, Prayer::Imsaak)) {
-                        if (fwd(f, im) as f64 - 90.0).abs() > 1.0 + 1e-6 {
-                            return Err(Failure::new("fajr-interval:imsaak", "Imsaak 1.5 min before an interval-defined Fajr", format!("Fajr {} Imsaak {}", hms(f), hms(im))));
+                        if (fwd(f, im) as f64 - gap_s).abs() > 1.0 + 1e-6 {
+                            return Err(Failure::new(
+                                "fajr-interval:imsaak",
+                                format!("Imsaak {} min before an interval-defined Fajr", gap_s / 60.0),
+                                format!("Fajr {} Imsaak {}", hms(f), hms(im)),
+                            ));
                         }
                     }
                 }
@@ -436,7 +474,14 @@ impl Prop for C12 {
                 match im {
                     Ok(im) => {
                         let got = fwd(gen::secs(f.time), gen::secs(im.time)) as f64;
-                        if !im.extreme || (got - 90.0).abs() > 1.0 + 1e-6 {
+                        // with an Imsaak interval in the base parameters the two clauses of the statement meet (interval vs
+                        // 1.5 min): either gap is accepted there, the flag is required in both readings
+                        let iv = spec.intervals().2;
+                        let gap_ok = (got - 90.0).abs() <= 1.0 + 1e-6 || (iv != 0.0 && (got - iv * 60.0).abs() <= 1.0 + 1e-6);
+                        if iv != 0.0 {
+                            st.class("extreme_fajr_with_imsaak_interval");
+                        }
+                        if !im.extreme || !gap_ok {
                             return Err(Failure::new(
                                 "extreme-fajr:imsaak",
                                 "Imsaak flagged extreme and 1.5 min before an extreme Fajr",
@@ -459,7 +504,7 @@ impl Prop for C12 {
         Ok(())
     }
     fn rule(&self) -> String {
-        "generated (site |lat|<=62, GMT within 2 h, 9 methods, policy None or the library default, date mixture) x one perturbation (minute offset in [-90,90] on one of the 7 keys; Fajr/Isha/Imsaak interval in [1,120]; school swap; Fajr or Isha angle +-1 under policy None; weather over its range; default weather vs absent). Each case is a pair of calls. Interval perturbations are also made on top of Fajr/Isha intervals already present; offsets are also constructed so that the shifted time lands within +-3 s of midnight; one case in 41 is a short-night case (|lat| 59.5-62 around the solstice, all three intervals 80-120); every case is preceded by a priming call with a sibling input. Non-trivial = the perturbed prayer exists so the exact-shift/exact-value clause was evaluated; distinct by hash of the case".into()
+        "generated (site |lat|<=62, GMT within 2 h, 9 methods, policy None or the library default, date mixture) x one perturbation (minute offset in [-90,90] on one of the 7 keys; Fajr/Isha/Imsaak interval in [1,120]; school swap; Fajr or Isha angle +-1 under policy None; weather over its range; default weather vs absent). Each case is a pair of calls. Perturbations are also made on top of Fajr/Isha/Imsaak intervals, minute offsets on all seven keys (+-30) and an explicit weather already present in the base parameters; offsets are also constructed so that the shifted time lands within +-3 s of midnight; one case in 41 is a short-night case (|lat| 59.5-62 around the solstice, all three intervals 80-120); every case is preceded by a priming call with a sibling input. Non-trivial = the perturbed prayer exists so the exact-shift/exact-value clause was evaluated; distinct by hash of the case".into()
     }
     fn assumptions(&self) -> Vec<String> {
         vec![
